@@ -87,6 +87,12 @@ TOL_DIRECT = 1e-10      # twins whose linear stack is direct / run-once only: id
 TOL_ITER = 2e-7         # iterative linear solvers (atol=rtol=1e-13, cond < 1e6): both twins within 1e-7 of exact
 TOL_REF = 2e-7          # against R (same bound as C01)
 TOL_OPT = 1e-6
+# family `arrow`, optimisation variant (nonlinear convex problem, SLSQP): the disabled twin's final design is accepted
+# as baseline if its KKT residual on the closed-form model is <= ARROW_KKT; with a strong-convexity modulus >= 0.6
+# (objective weights >= 0.3) it is then within ~2e-5 of the unique optimum, and an enabled twin that ends further than
+# ARROW_TOL_OPT from it is not at the optimum.
+ARROW_KKT = 1e-5
+ARROW_TOL_OPT = 1e-4
 
 
 def shards(tier, seed):
@@ -1300,6 +1306,7 @@ def _run_arrow_twin(s, norel):
                     out['res']['values-after'] = np.concatenate([np.array(prob.get_val(n)).ravel() for n in allout])
             out['failures'] = [f for f in fmon.failures if not f[5]]
             out['sparsity-failures'] = sum(1 for f in fmon.failures if f[5])
+            out['src2spec'] = {prob.model.get_source(n): n for n in names_r + names_d}
             out['active'] = prob.model._relevance._active
             col = prob.driver._coloring_info.coloring
             out['colmodes'] = tuple(col.modes()) if col is not None else ()
@@ -1396,7 +1403,7 @@ def _case_arrow(case, acc):
         # baseline: the disabled twin's final design must be THE optimum (KKT on the closed-form model; the problem
         # is convex with a strictly convex objective)
         kres, kviol = A.arrow_kkt(s, final_point(off['res']))
-        if kres > 1e-6 or kviol > 1e-7:
+        if kres > ARROW_KKT or kviol > 1e-7:
             acc.skip('baseline-optimizer-inexact')
             if os.environ.get('OMV_DEBUG'):
                 print('baseline optimum not certified', case, kres, kviol, file=sys.stderr)
@@ -1415,7 +1422,7 @@ def _case_arrow(case, acc):
         zon = zof(on['res'])
         e = _relerr(zon, zoff)
         kon, von_ = A.arrow_kkt(s, final_point(on['res']))
-        if e > TOL_OPT and (kon > 1e-6 or von_ > 1e-7):
+        if e > ARROW_TOL_OPT:
             bad.append(('design-vars', '', 'final design differs from the disabled twin\'s (certified optimum): rel '
                         '%.2e; KKT residual on the closed-form model %.2e, constraint violation %.2e (%s)'
                         % (e, kon, von_, 'success' if on['success'] else 'optimizer reports failure')))
